@@ -149,8 +149,11 @@ def gen_history(k, ctx, rng):
     now = rng.choice([0, 100, 1700000000, -5, I64MAX])
     n = rng.choice([6, 10, 14, 20, 30])
     toks, intents = [], []
+    caps = {}
     def add(tok, intent):
         toks.append(tok); intents.append(intent)
+        if intent[0] == 'P' and intent[1] == 'valid' and 'SessionsCap' in intent[3]:
+            caps[intent[2]] = intent[3]['SessionsCap']
     # the first post of history k uses field subset k mod 64: all 64 subsets are created and read
     first = True
     for i in range(n):
@@ -194,7 +197,8 @@ def gen_history(k, ctx, rng):
             add('A|%s' % hx(u), ['A', hx(u)])
         elif r < 0.98:
             u = rng.choice(uids)
-            add('S|%s|%d' % (hx(u), rng.choice([0, 1, 5, 2**31, 4000000000])), ['S', hx(u)])
+            cap = caps.get(hx(u), 0) % 2**32       # the cap as AuthoriseNewSession reads it (unsigned)
+            add('S|%s|%d' % (hx(u), rng.choice([0, 1, cap, max(cap - 1, 0), cap + 1, 4000000000])), ['S', hx(u)])
         else:
             add('E', ['E'])
     add('L', ['L'])
